@@ -143,7 +143,9 @@ def gen_content(rng, cfg, size='normal'):
         elif code in (8, 10, 16, 25, 32):
             k = {8: 4, 10: 4, 16: 8, 25: 20, 32: 12}[code]
             n = rng.choice([0, 1, 2, 3, 40]) if size != 'small' else rng.below(3)
-            items = [bytes(rng.below(256) for _ in range(k)) for _ in range(n)]
+            # repeated entries are legal on the wire and must survive: draw half of the lists from a pool of three values
+            pool = [bytes(rng.below(256) for _ in range(k)) for _ in range(3)]
+            items = [rng.choice(pool) if rng.chance(1, 2) else bytes(rng.below(256) for _ in range(k)) for _ in range(n)]
             v = b''.join(items)
             name = {8: 'comm', 16: 'ext', 25: 'v6ext', 32: 'large'}.get(code)
             if name:
